@@ -542,6 +542,10 @@ func (vlog *valueLog) createVlogFile() (*logFile, error) {
 	if err != z.NewFile && err != nil {
 		return nil, err
 	}
+	// Make the new file's directory entry durable before any value pointer can refer to it.
+	if err := vlog.db.syncDir(vlog.dirPath); err != nil {
+		return nil, err
+	}
 
 	vlog.filesLock.Lock()
 	vlog.filesMap[fid] = lf
